@@ -135,7 +135,7 @@ def AreaOK (a : AreaT) : Prop := QueryOK a.loc ∧ ∀ d ∈ nodes a, d.kind = .
 
 /-- the part of the invariant that does not involve caches or the log.  `L` is what the spec says is alive
     (`liveAfter` of the calls so far), `ever` every collection handed to the record so far. -/
-structure InvCore (L : Live) (ever : List AreaT) (r : Rec) : Prop where
+structure InvCore (S : Prop) (L : Live) (ever : List AreaT) (r : Rec) : Prop where
   genesLive : ∀ g, g ∈ r.genes ↔ g ∈ L.genes
   regionsEq : r.regions = L.regions
   protosEq : r.protos = L.protos
@@ -157,8 +157,8 @@ structure InvCore (L : Live) (ever : List AreaT) (r : Rec) : Prop where
   sectionsComplete : ∀ g ∈ r.genes, ∀ d s, LinkedS (registered r) g d s → ((d.id, s), g.id) ∈ r.sections
   cover : ∀ aid gid, (aid, gid) ∈ r.members ↔ ∃ s, ((aid, s), gid) ∈ r.sections
   defsSub : ∀ x ∈ r.defs, x ∈ r.members
-  defsSound : ∀ x ∈ r.defs, ∃ g ∈ r.genes, ∃ d, Linked ever g d ∧ defines g d = true ∧ x = (d.id, g.id)
-  defsComplete : ∀ g ∈ r.genes, ∀ d, Linked (registered r) g d → defines g d = true → (d.id, g.id) ∈ r.defs
+  defsSound : S → ∀ x ∈ r.defs, ∃ g ∈ r.genes, ∃ d, Linked ever g d ∧ defines g d = true ∧ x = (d.id, g.id)
+  defsComplete : S → ∀ g ∈ r.genes, ∀ d, Linked (registered r) g d → defines g d = true → (d.id, g.id) ∈ r.defs
   regionKeys : ∀ x ∈ r.regionOf, ∃ g ∈ r.genes, g.id = x.1
   regionPtr : ∀ g ∈ r.genes,
     (∀ a ∈ r.regions, containedBy g.loc a.loc = true → r.regionOfGene g.id = some a.id) ∧
@@ -171,11 +171,11 @@ structure InvCache (r : Rec) : Prop where
   tuple : ∀ aid ∈ r.clean, ((r.tupleVal.find? fun y => y.1 == aid).map (·.2))
     = some [r.section aid .pre, r.section aid .cross, r.section aid .post]
 
-structure Inv (L : Live) (ever : List AreaT) (r : Rec) : Prop where
-  core : InvCore L ever r
+structure Inv (S : Prop) (L : Live) (ever : List AreaT) (r : Rec) : Prop where
+  core : InvCore S L ever r
   cache : InvCache r
 
-theorem Inv.init (len : Int) : Inv {} [] { len := len } := by
+theorem Inv.init (S : Prop) (len : Int) : Inv S {} [] { len := len } := by
   constructor
   · constructor <;> simp [registered, Sorted, GenesOK, Linked, LinkedS, Live.genes, Live.regions]
   · constructor <;> simp
